@@ -37,6 +37,13 @@ def visit(acc, blk, vec, asg, idx):
         extra = [m for m in T.V4_MODIFIED if m not in asg]
         vec = vec + "".join("/%s:X" % m for m in extra)
         asg = dict(asg, **dict((m, "X") for m in extra))
+    if blk.meta.get("dedupe_fields"):
+        # the block's last part may name a metric its middle part names too: the last one counts
+        f = vec[len("CVSS:4.0/"):].split("/")
+        names = [x.split(":")[0] for x in f]
+        if len(set(names)) != len(names):
+            keep = [x for i, x in enumerate(f) if names[i] not in names[i + 1:]]
+            vec = "CVSS:4.0/" + "/".join(keep)
     acc["n"] += 1
     acc["calls"] += 2
     why, got, exp = judge(vec, asg)
@@ -55,10 +62,10 @@ def visit(acc, blk, vec, asg, idx):
 def blocks(tier):
     if tier == "thorough":
         return spaces.v4_blocks("thorough", "short") + spaces.v4_blocks("quick", "override") + \
-            spaces.v4_xmod_blocks(("mid", "mid")) + [spaces.interaction_block("4.0", tier), spaces.layout_block("4.0")]
+            spaces.v4_xmod_blocks(("mid", "mid")) + [spaces.interaction_block("4.0", tier), spaces.layout_block("4.0"), spaces.v4_written_maxima_block()]
     return spaces.v4_blocks("quick", "short", ("mid", "mid")) + \
         spaces.v4_blocks("quick", "override", ("min", "mid")) + spaces.v4_xmod_blocks(("mid", "mid")) + \
-        [spaces.interaction_block("4.0", tier), spaces.layout_block("4.0")]
+        [spaces.interaction_block("4.0", tier), spaces.layout_block("4.0"), spaces.v4_written_maxima_block()]
 
 
 def run(ctx, res):
